@@ -107,6 +107,8 @@ where
                 if *entry.get() <= estimate_score {
                     continue;
                 }
+                #[cfg(feature = "verif-hooks")]
+                crate::verif::hit(crate::verif::Site::astar_reexpand);
                 entry.insert(estimate_score);
             }
             Vacant(entry) => {
